@@ -686,6 +686,27 @@ impl Monitor for C16m {
             if (-dua) as u128 > ma as u128 || (-dub) as u128 > mb as u128 {
                 fail(acc, "paid_more_than_maximum", format!("owner paid ({}, {}) above the stated maxima ({ma}, {mb})", -dua, -dub));
             }
+            // the maximum applies to what the owner actually pays (transfer fee included): exactly that is accepted, one less is not
+            if w.r.gen_range(0..3) == 0 && dua <= 0 && dub <= 0 && ua != ub {
+                let (pa, pb) = ((-dua) as u64, (-dub) as u64);
+                let mut i2 = obs.ix.clone();
+                i2.data[24..32].copy_from_slice(&pa.to_le_bytes());
+                i2.data[32..40].copy_from_slice(&pb.to_le_bytes());
+                let (o, _) = w.simulate(&obs.pre, &i2);
+                acc.count("maximum_probes");
+                if !o.ok() {
+                    fail(acc, "maximum_rejected_wrongly", format!("maxima equal to what the owner pays ({pa}, {pb}) were rejected: {:?}", o.err));
+                }
+                for (off, x, tok) in [(24usize, pa, "A"), (32usize, pb, "B")] {
+                    let Some(x1) = x.checked_sub(1) else { continue };
+                    let mut i3 = i2.clone();
+                    i3.data[off..off + 8].copy_from_slice(&x1.to_le_bytes());
+                    let (o, _) = w.simulate(&obs.pre, &i3);
+                    if o.ok() {
+                        fail(acc, "maximum_not_enforced", format!("maximum {tok} {x1} below the {x} the owner pays (transfer fee included) was accepted"));
+                    }
+                }
+            }
         }
         if dec {
             let (_l, ma, mb) = (r.u128(), r.u64(), r.u64());
